@@ -281,7 +281,10 @@ fn run1<T: Flt>(src: &mut Src, obs: &mut Obs) -> Result<(), Fail> {
         S::Custom(_) => "strat:custom",
     });
     obs.class(format!("ddim:{}", dd.name()));
-    let darr = ArrayD::from_shape_vec(IxDyn(&shape), data.clone()).unwrap();
+    // the memory layout of the data is varied as well (validation must not depend on it)
+    let dlay = crate::layout::pick_lay(src);
+    obs.class(format!("datalayout:{}", dlay.0.name()));
+    let darr = crate::layout::realise(ArrayD::from_shape_vec(IxDyn(&shape), data.clone()).unwrap(), dlay, T::of(-77.0));
     let xo = xv.as_ref().map(|v| ndarray::Array1::from_vec(v.clone()));
     let desc = format!("T={} strategy={strat:?} data {}{:?} x={:?} boundary={}", T::NAME, dd.name(), shape, xv.as_ref().map(|v| v.iter().map(|t| t.f()).collect::<Vec<_>>()),
         match &bc { Some(Bc::Individual(a)) => format!("Individual{:?}", a.shape()), Some(b) => format!("{b:?}"), None => "-".into() });
@@ -376,7 +379,8 @@ fn run2<T: Flt>(src: &mut Src, obs: &mut Obs) -> Result<(), Fail> {
     });
     obs.class(if custom.is_some() { "strat:custom" } else { "strat:Bilinear" });
     let log: Log = Arc::new(Mutex::new(Vec::new()));
-    let darr = ArrayD::from_shape_vec(IxDyn(&shape), data).unwrap();
+    let dlay = crate::layout::pick_lay(src);
+    let darr = crate::layout::realise(ArrayD::from_shape_vec(IxDyn(&shape), data).unwrap(), dlay, T::of(-77.0));
     let xo = xv.as_ref().map(|v| ndarray::Array1::from_vec(v.clone()));
     let yo = yv.as_ref().map(|v| ndarray::Array1::from_vec(v.clone()));
     let desc = format!("T={} 2-D strategy={} data {}{:?} x={:?} y={:?}", T::NAME, custom.map(|m| format!("custom(min {m})")).unwrap_or("Bilinear".into()), dd.name(), shape,
